@@ -44,6 +44,9 @@ func scenariosC06() []*scenario {
 			out = append(out, &scenario{name: fmt.Sprintf("c06/s%d/h%d", s0, i), base: s0, opt: o, bound: bound, rounds: s.l, actors: s.actors, checkC04: true})
 		}
 	}
+	// two processes create the same log concurrently; one of them goes on to sequence
+	out = append(out, &scenario{name: "c06/create-race", base: -1, opt: o, bound: 2, create: true, rounds: [][]string{{"a"}},
+		actors: []actorSpec{{name: "M", create: true, rounds: [][]string{{"b"}}}}, checkC04: true})
 	return out
 }
 
